@@ -8,17 +8,21 @@ from .. import flow
 PID = "C06"
 LEVEL = "other"
 EXPLANATION = (
-    "Static analysis over MIR. Decided: R1 in RpcService::call the Subscription callback is invoked only on the Some arm of "
-    "BoundedSubscriptions::acquire; the None arm answers reject_too_many_subscriptions (-32006) with the call's id and "
-    "invokes nothing; R2 the acquired permit flows SubscriptionState.subscription_permit -> PendingSubscriptionSink.permit "
-    "-> the state shared by the sink's clones, and no forget-like call (mem::forget, ManuallyDrop::new, Box::leak, "
-    "Arc::into_raw, OwnedSemaphorePermit::forget, Semaphore::{forget_permits,add_permits}) exists in core/server code; R3 "
-    "the unsubscribe answer is remove(&(conn_id parameter, parsed id)).is_some() and an unparsable id answers false "
-    "without touching the table; R4 the table entry is removed when the handler lets go of its sinks, and only by the last "
-    "handle: the removal in a Drop impl lives in a non-Clone value shared by all clones of the sink behind an Arc (or is "
-    "guarded by a last-owner test), and that value also owns the permit; R5 the Unsubscription arm acquires no permit; R6 "
-    "BoundedSubscriptions::new receives ServerConfig.max_subscriptions_per_connection at both WebSocket entry points and "
-    "the semaphore is created with exactly that number. NOT decided: the count invariant itself (tokio semaphore)."
+    'Static analysis over MIR. Decided: R1 in RpcService::call the Subscription callback is invoked only on the Some '
+    'arm of BoundedSubscriptions::acquire; the None arm answers reject_too_many_subscriptions (-32006) with the '
+    "call's id and invokes nothing; R2 the acquired permit flows SubscriptionState.subscription_permit -> "
+    "PendingSubscriptionSink.permit -> the state shared by the sink's clones, and no forget-like call (mem::forget, "
+    'ManuallyDrop::new, Box::leak, Arc::into_raw, OwnedSemaphorePermit::forget, '
+    'Semaphore::{forget_permits,add_permits}) exists in core/server code; R3 the unsubscribe answer is '
+    'remove(&(conn_id parameter, parsed id)).is_some() and an unparsable id answers false without touching the table; '
+    'R4 the table entry is removed when the handler lets go of its sinks, and only by the last handle: the removal in '
+    'a Drop impl lives in a non-Clone value shared by all clones of the sink behind an Arc (or is guarded by a last- '
+    'owner test), and that value also owns the permit; R5 the Unsubscription arm acquires no permit; R6 '
+    'BoundedSubscriptions::new receives ServerConfig.max_subscriptions_per_connection at both WebSocket entry points '
+    'and the semaphore is created with exactly that number. R7 who may change the subscriber table (insert in accept, '
+    'remove in the unsubscribe callback and in SubscriptionGuard::drop, nothing else); R8 no lock is re-acquired '
+    'while its guard is alive; CFG max_subscriptions_per_connection reaches ServerConfig verbatim. NOT decided: the '
+    'count invariant itself (tokio semaphore).'
 )
 RULE_TEXT = "instances = acquire/invoke dominance, permit flow steps, forbidden-call scan, removal sites in Drop impls, cap provenance"
 TRUSTED = ["rustc MIR", "tokio Semaphore / OwnedSemaphorePermit RAII"]
